@@ -321,6 +321,11 @@ func (vc *VC) loadSpec(p SVal, T types.Type, m *Mem) SVal {
 
 func (vc *VC) evalIndex(v SVal, i string, env *Env) SVal {
 	switch v.K {
+	case KRef:
+		if MT, ok := v.T.Underlying().(*types.Map); ok {
+			kv := mkInt(i)
+			return vc.mapGet(env.mem, v, MT, kv)
+		}
 	case KSlice:
 		el := v.T.Underlying().(*types.Slice).Elem()
 		p := ptrV(types.NewPointer(el), v.obj(), idx(v.off(), mul(i, litI(flatLen(el)))))
@@ -415,6 +420,14 @@ func (vc *VC) evalCall(x *ECall, env *Env) SVal {
 	case "fresh":
 		v := arg(0)
 		return boolV(le("$A0", objOf(v)))
+	case "has":
+		// has(m, k): key k is present in map m
+		m := arg(0)
+		MT, ok := m.T.Underlying().(*types.Map)
+		if !ok {
+			unsup("has(m, k): m is not a map")
+		}
+		return boolV(vc.mapHas(env.mem, m, MT, arg(1)))
 	case "blen":
 		// ghost: number of bytes in a buffer.Buffer
 		vc.keyType["buffer.len"] = types.Typ[types.Int]
@@ -445,6 +458,29 @@ func (vc *VC) evalCall(x *ECall, env *Env) SVal {
 		p := ptrV(types.NewPointer(tn.Type()), objOf(arg(0)), "0")
 		p.Key = ptrKeyFor(tn.Type())
 		return p
+	case "isptr":
+		// isptr(x, T): interface value x is non-nil and its dynamic type is *T
+		id, ok := x.Args[1].(*EIdent)
+		if !ok || vc.fn.Pkg == nil {
+			unsup("isptr(x, T)")
+		}
+		tn := vc.fn.Pkg.Pkg.Scope().Lookup(id.Name)
+		if tn == nil {
+			unsup("isptr: no type %s in package %s", id.Name, vc.fn.Pkg.Pkg.Path())
+		}
+		v := arg(0)
+		return boolV(and(not(eq(v.S, "0")), eq(sx(vc.typeofFn(), v.S), litI(int64(vc.eng.typeID(types.NewPointer(tn.Type())))))))
+	case "unbox":
+		// unbox(x, T): the *T held by interface value x (T a named type of the package under verification)
+		id, ok := x.Args[1].(*EIdent)
+		if !ok || vc.fn.Pkg == nil {
+			unsup("unbox(x, T)")
+		}
+		tn := vc.fn.Pkg.Pkg.Scope().Lookup(id.Name)
+		if tn == nil {
+			unsup("unbox: no type %s in package %s", id.Name, vc.fn.Pkg.Pkg.Path())
+		}
+		return vc.unboxVal(arg(0), types.NewPointer(tn.Type()))
 	case "gstr":
 		// gstr(key, x): a ghost STRING of object x: three ghost cells (view object, offset, length)
 		id, ok := x.Args[0].(*EIdent)
